@@ -96,6 +96,18 @@ impl<'a> Tape<'a> {
     pub fn u64(&mut self) -> u64 {
         ((self.u32() as u64) << 32) | self.u32() as u64
     }
+    /// n pseudo-random bytes expanded from two tape values (content that does not steer the generator)
+    pub fn bytes_cheap(&mut self, n: usize) -> Vec<u8> {
+        let mut x = ((self.u32() as u64) << 1) | 1;
+        let mut v = Vec::with_capacity(n);
+        while v.len() < n {
+            x ^= x << 13;
+            x ^= x >> 7;
+            x ^= x << 17;
+            v.extend_from_slice(&x.to_le_bytes()[..(n - v.len()).min(8)]);
+        }
+        v
+    }
     pub fn bytes(&mut self, n: usize) -> Vec<u8> {
         let mut v = Vec::with_capacity(n);
         while v.len() < n {
